@@ -108,6 +108,10 @@ fn gen_case(seed: u64, idx: u64) -> Case {
     }
     tags.sort();
     tags.dedup();
+    // minimisation protocol (`--keep p0,p1,..`): the history was generated exactly as usual; operations whose
+    // position is not kept are dropped before the implementation runs (sweeps follow the hull of what is left)
+    let nelems = ops.len();
+    let ops: Vec<Op> = ops.into_iter().enumerate().filter(|(i, _)| kept(*i)).map(|(_, o)| o).collect();
 
     // ---- run the implementation
     let mut mem = Memory::new(if big { Endian::Big } else { Endian::Little });
@@ -208,7 +212,8 @@ fn gen_case(seed: u64, idx: u64) -> Case {
         ores, secs_txt.join(" "), lo, g8, gbits, lo2, gs, gx.join(",")
     );
     let nwrites = ops.iter().filter(|o| matches!(o, Op::Write(..))).count();
-    Case { coq, descr, tags, nontrivial: nwrites >= 2 && overlapping, key: format!("{}{}", big, ops_coq) }
+    let descr = match keep_arg() { Some(k) => format!("[operations kept: {} of {}] {}", k, nelems, descr), None => descr };
+    Case { coq, descr, tags, nontrivial: nwrites >= 2 && overlapping, key: format!("{}{}", big, ops_coq) }.with_elements(nelems)
 }
 
 fn main() {
